@@ -26,8 +26,11 @@ PROBES = ["1 U.S. 1 (1999). Then came 2 F.2d 2 (2005)", "United States( v. Bar, 
 
 
 def plan(tier, seed):
-    return [dict(i=i, n=N[tier], seed=seed * 1000 + i, corpus=(i == 0), probes=(i == 0))
+    specs = [dict(i=i, n=N[tier], seed=seed * 1000 + i, corpus=(i == 0), probes=(i == 0))
             for i in range(SHARDS[tier])]
+    if tier == "thorough":
+        specs.append(dict(i=99, suite=True, n=0, seed=seed))
+    return specs
 
 
 def prepare(tier, seed, workdir):
@@ -95,6 +98,8 @@ def on_result_factory(rec):
 
 
 def run_shard(spec, rec):
+    if spec.get("suite"):
+        return _extract.suite_under_contracts(rec, "C17.")
     instrument.install(rec, what=())
     on_result = on_result_factory(rec)
     if spec.get("probes"):
